@@ -1,6 +1,9 @@
 SPEC = {
     "level": "exploration",
     "parts": [
+        {"name": "pkg", "pkg": "./internal/dnsforward/", "run": "^TestVerifC08Pkg$",
+         "harness": ["dnsforward/common_*.go", "dnsforward/c01_test.go", "dnsforward/c08_*.go"],
+         "timeout_quick": 900, "timeout_thorough": 3400},
         {"name": "system", "pkg": "./internal/verifsys/", "run": "^TestVerifC08$",
          "harness": ["verifsys/doc.go", "verifsys/common_*.go", "verifsys/c05_*.go", "verifsys/c08_*.go"],
          "binary": {"race": False}, "compile_then_run": True,
@@ -10,6 +13,6 @@ SPEC = {
 
 CLAIM = {
     "text": "The real binary is configured through its admin API with generated ignore lists for the query log and for statistics (||class^ rules, plain names, wildcards, the root '|.^'), persistent clients flagged ignore_querylog / ignore_statistics and identified by exact IP, CIDR and ClientID, and anonymisation on or off. Queries carrying unique labels (mixed letter case) are sent from loopback aliases over UDP, TCP and plain-HTTP DoH with ClientIDs. Presence or absence of every label, of flagged clients and of un-anonymised addresses is then observed at all observation points: the query-log API, querylog.json (after a clean shutdown), the statistics API (totals, top domains, top clients) and the raw bytes of stats.db. The ignore list is also changed after entries were logged to check that the API stops returning them.",
-    "note": "IPv6 client addresses are not exercised over real sockets (the server listens on 127.0.0.1 only); MAC-identified clients need a DHCP lease and are not exercised. Absence is asserted on byte level, so it cannot be fooled by the decoder.",
+    "note": "A package tier feeds crafted request contexts (IPv6, IPv4-mapped, ClientID) through the real server pipeline with the real query log, statistics and client registry wired as package home wires them; the system tier uses real sockets (every fourth configuration with a dual-stack listener). MAC-identified clients need a DHCP lease and are not exercised. Absence is asserted on byte level, so it cannot be fooled by the decoder.",
     "technique": "runtime monitor: unique-label tracing through log/statistics files and APIs of the real binary",
 }
